@@ -145,9 +145,21 @@ def _header_parse(g):
     for n in g.nodes:
         if n.kind == 'stmt' and isinstance(n.ast, ast.Assign) and len(n.ast.targets) == 1 and \
                 isinstance(n.ast.targets[0], (ast.Tuple, ast.List)) and \
-                len(n.ast.targets[0].elts) >= 3 and 'int' in norm(n.ast.value):
+                len(n.ast.targets[0].elts) >= 3 and 'int' in norm(_header_value(g, n.ast.value)):
             return n
     return None
+
+
+def _header_value(g, v):
+    """the expression that converts the fields: the unpacked value itself, or -- when the parsed
+    tuple is first kept in a local (``header = tuple(int(f) for f in fields)`` ... ``a, b, c = header``)
+    -- the value of the assignment of that local that holds the conversion"""
+    if isinstance(v, ast.Name):
+        cands = [n.ast.value for n in g.nodes if n.kind == 'stmt' and isinstance(n.ast, ast.Assign) and
+                 any(is_name(t, v.id) for t in n.ast.targets) and 'int' in norm(n.ast.value)]
+        if len(cands) == 1:
+            return cands[0]
+    return v
 
 
 class Consumer:
@@ -370,8 +382,10 @@ def r1_r2_wire(ctx, rep, R1='C07.R1', R2='C07.R2'):
     # line (fullmatch / anchored at both ends).  A prefix match takes "0 0 0 open handles" -- noise a
     # test wrote to fd 2 -- for the header and the real report is never read.
     if hp is not None:
-        v = hp.ast.value
+        v = _header_value(g, hp.ast.value)
         src = None
+        while isinstance(v, ast.Call) and dotted(v.func) in ('tuple', 'list') and len(v.args) == 1:
+            v = v.args[0]
         if isinstance(v, ast.Call) and dotted(v.func) == 'map' and len(v.args) == 2 and dotted(v.args[0]) == 'int':
             src = v.args[1]
         elif isinstance(v, (ast.ListComp, ast.GeneratorExp, ast.Tuple, ast.List)) and \
